@@ -3,6 +3,7 @@ package main
 import (
 	"fmt"
 	"go/ast"
+	"go/types"
 	"sort"
 	"strings"
 
@@ -367,4 +368,130 @@ func rulePermissions(c *Ctx) {
 		}
 	}
 	c.Floor("switches over the permission kind", nsw, 4)
+}
+
+// ---------------------------------------------------------------------------
+// wild-nonnil: for WildStrings/WildPermissionDescs "Value == nil" MEANS wildcard, so an explicit (possibly empty)
+// list must never be stored as a possibly-nil slice
+
+func ruleWildNonNil(c *Ctx) {
+	pk := c.P.Pkg("pkg/smartcontract/manifest")
+	if pk == nil {
+		c.Lost("anchor", "package manifest not found")
+		return
+	}
+	isWild := func(t types.Type) bool {
+		return namedTypeIs(t, "pkg/smartcontract/manifest", "WildStrings") || namedTypeIs(t, "pkg/smartcontract/manifest", "WildPermissionDescs")
+	}
+	n := 0
+	for _, fd := range c.P.AllFuncDecls() {
+		if fd.Pkg != pk || fd.Decl.Body == nil {
+			continue
+		}
+		f := c.P.NewFuncCFG(fd)
+		k := 0
+		classify := func(e ast.Expr) (string, string) {
+			e = ast.Unparen(e)
+			if isNilIdent(pk.TypesInfo, e) {
+				return "ok", "explicit nil = wildcard"
+			}
+			switch x := e.(type) {
+			case *ast.CompositeLit:
+				return "ok", "non-nil literal"
+			case *ast.CallExpr:
+				switch f.calleeSym(x) {
+				case "builtin.make":
+					return "ok", "make() is non-nil even for length 0"
+				case "builtin.append":
+					if len(x.Args) >= 2 && !x.Ellipsis.IsValid() {
+						return "ok", "append of at least one element"
+					}
+				}
+			case *ast.Ident:
+				o := pk.TypesInfo.ObjectOf(x)
+				ds := f.defs[o]
+				// declared without a value => nil until something is appended
+				declaredNil := false
+				ast.Inspect(fd.Decl.Body, func(n ast.Node) bool {
+					if vs, ok := n.(*ast.ValueSpec); ok && len(vs.Values) == 0 {
+						for _, nm := range vs.Names {
+							if pk.TypesInfo.Defs[nm] == o {
+								declaredNil = true
+							}
+						}
+					}
+					return true
+				})
+				if declaredNil {
+					return "bad", "declared with `var` and no value: stays nil when nothing is appended"
+				}
+				allGood := len(ds) > 0
+				for _, d := range ds {
+					for _, r := range d.rhs {
+						r = ast.Unparen(r)
+						_, isLit := r.(*ast.CompositeLit)
+						isMake := false
+						if call, ok := r.(*ast.CallExpr); ok {
+							cs := f.calleeSym(call)
+							isMake = cs == "builtin.make" || (cs == "builtin.append" && len(call.Args) > 0 && sameExpr(pk.TypesInfo, call.Args[0], x))
+						}
+						if isNilIdent(pk.TypesInfo, r) {
+							return "bad", "assigned nil"
+						}
+						if !isLit && !isMake {
+							allGood = false
+						}
+					}
+				}
+				if allGood {
+					return "ok", "local initialised with a non-nil empty slice"
+				}
+			}
+			return "unknown", ""
+		}
+		report := func(pos ast.Node, val ast.Expr, owner string) {
+			n++
+			k++
+			key := fmt.Sprintf("%s.%s#%d", FuncKey(fd.Obj), owner, k)
+			st, why := classify(val)
+			switch st {
+			case "ok":
+				c.OK(key, c.P.Pos(pos.Pos()), owner+".Value <- "+types.ExprString(val)+": "+why)
+			case "bad":
+				c.Fail(key, c.P.Pos(pos.Pos()), fmt.Sprintf("%s stores %s into %s.Value; the slice is %s, and a nil Value means WILDCARD: an explicit empty list (allow nothing) would silently become allow-everything", FuncKey(fd.Obj), types.ExprString(val), owner, why))
+			default:
+				c.Unclassified(key, c.P.Pos(pos.Pos()), "cannot tell whether "+types.ExprString(val)+" can be nil")
+			}
+		}
+		ast.Inspect(fd.Decl.Body, func(x ast.Node) bool {
+			switch s := x.(type) {
+			case *ast.CompositeLit:
+				if t := pk.TypesInfo.TypeOf(s); t != nil && isWild(t) {
+					for _, el := range s.Elts {
+						if kv, ok := el.(*ast.KeyValueExpr); ok {
+							if id, ok := kv.Key.(*ast.Ident); ok && id.Name == "Value" {
+								report(kv, kv.Value, t.(*types.Named).Obj().Name())
+							}
+						}
+					}
+				}
+			case *ast.AssignStmt:
+				for i, l := range s.Lhs {
+					se, ok := ast.Unparen(l).(*ast.SelectorExpr)
+					if !ok || se.Sel.Name != "Value" || i >= len(s.Rhs) {
+						continue
+					}
+					if t := pk.TypesInfo.TypeOf(se.X); t != nil && isWild(t) {
+						name := "WildStrings"
+						if namedTypeIs(t, "pkg/smartcontract/manifest", "WildPermissionDescs") {
+							name = "WildPermissionDescs"
+						}
+						report(s, s.Rhs[i], name)
+					}
+				}
+			}
+			return true
+		})
+	}
+	c.Floor("stores into a wildcard container's Value", n, 6)
 }
